@@ -461,10 +461,10 @@ Proof.
   destruct (true && timer (fst ki)); [discriminate|]. intros H. inversion H. reflexivity.
 Qed.
 
-Lemma seq_single_uid : forall o timer ki e,
-  fst (seq_single o timer ki) = Some e -> r_uid e = uid (snd ki).
+Lemma seq_single_uid : forall o cache timer ki e,
+  fst (seq_single o cache timer ki) = Some e -> r_uid e = uid (snd ki).
 Proof.
-  intros o timer ki e. unfold seq_single. rewrite evaluate_single_fst.
+  intros o cache timer ki e. unfold seq_single. rewrite evaluate_single_fst.
   destruct (true && timer (fst ki)); [discriminate|]. intros H. inversion H. reflexivity.
 Qed.
 
@@ -478,11 +478,11 @@ Proof.
   rewrite evaluate_single_fst. simpl. destruct (timer (fst ki)); reflexivity.
 Qed.
 
-Lemma evaluated_of_seq : forall o timer l,
-  evaluated_of (fun ki => fst (seq_single o timer ki)) l =
+Lemma evaluated_of_seq : forall o cache timer l,
+  evaluated_of (fun ki => fst (seq_single o cache timer ki)) l =
   flat_map (fun ki => if timer (fst ki) then []
-                      else if valid (objective_value o (gr (snd ki)))
-                           then [evaluated_ind o (gr (snd ki)) (snd ki)] else []) l.
+                      else if valid (objective_value o (cgc cache (snd ki)))
+                           then [evaluated_ind o (cgc cache (snd ki)) (snd ki)] else []) l.
 Proof.
   intros. unfold evaluated_of. apply flat_map_ext. intros ki. unfold seq_single.
   rewrite evaluate_single_fst. simpl. destruct (timer (fst ki)); reflexivity.
@@ -499,8 +499,8 @@ Proof.
   unfold mp_single. rewrite evaluate_single_snd. simpl. destruct (timer (fst ki)); reflexivity.
 Qed.
 
-Lemma seq_main_log : forall o timer pop,
-  concat (map snd (seq_main o timer pop)) = main_log_spec o gr timer (to_evaluate pop).
+Lemma seq_main_log : forall o cache timer pop,
+  concat (map snd (seq_main o cache timer pop)) = main_log_spec o (cgc cache) timer (to_evaluate pop).
 Proof.
   intros. unfold seq_main, main_log_spec. rewrite concat_map_snd. apply flat_map_ext. intros ki.
   unfold seq_single. rewrite evaluate_single_snd. simpl. destruct (timer (fst ki)); reflexivity.
@@ -572,26 +572,31 @@ Proof.
 Qed.
 
 (* --- the sequential dispatcher --------------------------------------------------------- *)
-Definition seq_spec (o : objective) (timer : nat -> bool) (pop : list ind) : list ind :=
-  survivors o gr timer (to_evaluate pop) ++ to_skip pop.
+Definition seq_spec (o : objective) (cg : ind -> graph) (timer : nat -> bool) (pop : list ind) : list ind :=
+  survivors o cg timer (to_evaluate pop) ++ to_skip pop.
 
-Theorem seq_finish_closed : forall o timer pop rs,
+Theorem seq_finish_closed : forall o cache timer pop rs,
   NoDup (map uid (to_evaluate pop)) ->
-  Permutation rs (map fst (seq_main o timer pop)) ->
-  seq_finish pop rs = Ok (seq_spec o timer pop).
+  Permutation rs (map fst (seq_main o cache timer pop)) ->
+  seq_finish pop rs = Ok (seq_spec o (cgc cache) timer pop).
 Proof.
-  intros o timer pop rs ND P. unfold seq_finish, seq_main in *. rewrite map_map in P.
-  rewrite (apply_closed (fun ki => fst (seq_single o timer ki)) (seq_single_uid o timer)
+  intros o cache timer pop rs ND P. unfold seq_finish, seq_main in *. rewrite map_map in P.
+  rewrite (apply_closed (fun ki => fst (seq_single o cache timer ki)) (seq_single_uid o cache timer)
                         (to_evaluate pop) 0 rs ND (to_evaluate_invalid pop) P).
   rewrite evaluated_of_seq. reflexivity.
 Qed.
 
-Theorem sequential_evaluate_closed : forall o timer pop,
+Lemma eff_graph_seq_cgc : forall d pop i, eff_graph_seq d pop i = cgc (remote_compute_cache d pop) i.
+Proof. reflexivity. Qed.
+
+Theorem sequential_evaluate_closed : forall o d timer pop,
   NoDup (map uid (to_evaluate pop)) ->
-  sequential_evaluate o timer pop = (Ok (seq_spec o timer pop), main_log_spec o gr timer (to_evaluate pop)).
+  sequential_evaluate o d timer pop =
+  (Ok (seq_spec o (eff_graph_seq d pop) timer pop),
+   main_log_spec o (eff_graph_seq d pop) timer (to_evaluate pop)).
 Proof.
-  intros o timer pop ND. unfold sequential_evaluate.
-  rewrite (seq_finish_closed o timer pop _ ND (Permutation_refl _)). rewrite seq_main_log. reflexivity.
+  intros o d timer pop ND. unfold sequential_evaluate.
+  rewrite (seq_finish_closed o _ timer pop _ ND (Permutation_refl _)). rewrite seq_main_log. reflexivity.
 Qed.
 
 (* --- (3) the order in which the results come back is irrelevant ------------------------ *)
@@ -607,14 +612,14 @@ Proof.
   rewrite (mp_finish_closed o _ timer (rev pop) _ _ ND' (Permutation_refl _)). reflexivity.
 Qed.
 
-Theorem order_independent_seq : forall shuffle o timer pop,
+Theorem order_independent_seq : forall shuffle o d timer pop,
   (forall l, Permutation (shuffle l) l) ->
   NoDup (map uid (to_evaluate pop)) ->
-  sequential_evaluate_shuffled shuffle o timer pop = sequential_evaluate o timer pop.
+  sequential_evaluate_shuffled shuffle o d timer pop = sequential_evaluate o d timer pop.
 Proof.
-  intros shuffle o timer pop Hs ND. unfold sequential_evaluate_shuffled, sequential_evaluate.
-  rewrite (seq_finish_closed o timer pop _ ND (Hs _)).
-  rewrite (seq_finish_closed o timer pop _ ND (Permutation_refl _)). reflexivity.
+  intros shuffle o d timer pop Hs ND. unfold sequential_evaluate_shuffled, sequential_evaluate.
+  rewrite (seq_finish_closed o _ timer pop _ ND (Hs _)).
+  rewrite (seq_finish_closed o _ timer pop _ ND (Permutation_refl _)). reflexivity.
 Qed.
 
 (* ------------------------------------------------------------------------------------- *)
@@ -743,15 +748,17 @@ Proof.
       exists i. split; [apply in_rev_iff; exact Hi|]. split; [|reflexivity]. apply (filter_nil_all _ _ _ E i Hi).
 Qed.
 
-Theorem eval_sound_seq : forall o timer pop,
+Theorem eval_sound_seq : forall o d timer pop,
   NoDup (map uid (to_evaluate pop)) ->
-  exists out lg, sequential_evaluate o timer pop = (Ok out, lg) /\
+  exists out lg, sequential_evaluate o d timer pop = (Ok out, lg) /\
     (forall x, In x out ->
        valid (fitness x) = true /\
-       (In x pop \/ (exists i, In i pop /\ valid (fitness i) = false /\ x = evaluated_ind o (gr i) i))) /\
-    (forall g, In g (metric_graphs lg) -> exists i, In i pop /\ valid (fitness i) = false /\ g = gr i).
+       (In x pop \/
+        (exists i, In i pop /\ valid (fitness i) = false /\ x = evaluated_ind o (eff_graph_seq d pop i) i))) /\
+    (forall g, In g (metric_graphs lg) ->
+       exists i, In i pop /\ valid (fitness i) = false /\ g = eff_graph_seq d pop i).
 Proof.
-  intros o timer pop ND. rewrite (sequential_evaluate_closed o timer pop ND).
+  intros o d timer pop ND. rewrite (sequential_evaluate_closed o d timer pop ND).
   eexists. eexists. split; [reflexivity|]. split.
   - intros x Hx. unfold seq_spec in Hx. apply in_app_or in Hx. destruct Hx as [Hx|Hx].
     + apply survivors_In in Hx. destruct Hx as [k [i [Hin [Et [Ev ->]]]]].
@@ -785,16 +792,17 @@ Proof.
     apply survivors_In. exists k, i. auto.
 Qed.
 
-Theorem eval_complete_seq : forall o timer pop k i,
+Theorem eval_complete_seq : forall o d timer pop k i,
   NoDup (map uid (to_evaluate pop)) ->
   In (k, i) (index_from 0 (to_evaluate pop)) ->       (* i is the k-th individual to evaluate *)
   ~ In (uid i) (map uid (to_skip pop)) ->
-  forall out lg, sequential_evaluate o timer pop = (Ok out, lg) ->
-  ((exists x, In x out /\ uid x = uid i) <-> timer k = false /\ valid (objective_value o (gr i)) = true).
+  forall out lg, sequential_evaluate o d timer pop = (Ok out, lg) ->
+  ((exists x, In x out /\ uid x = uid i) <->
+   timer k = false /\ valid (objective_value o (eff_graph_seq d pop i)) = true).
 Proof.
-  intros o timer pop k i ND Hin Hns out lg H.
-  rewrite (sequential_evaluate_closed o timer pop ND) in H. inversion H; subst out lg. clear H.
-  rewrite <- (survivors_present_iff o gr timer (to_evaluate pop) k i ND Hin). unfold seq_spec. split.
+  intros o d timer pop k i ND Hin Hns out lg H.
+  rewrite (sequential_evaluate_closed o d timer pop ND) in H. inversion H; subst out lg. clear H.
+  rewrite <- (survivors_present_iff o (eff_graph_seq d pop) timer (to_evaluate pop) k i ND Hin). unfold seq_spec. split.
   - intros [x [Hx Hu]]. apply in_app_or in Hx. destruct Hx as [Hx|Hx]; [eauto|].
     exfalso. apply Hns. rewrite <- Hu. apply in_map. exact Hx.
   - intros [x [Hx Hu]]. exists x. split; auto. apply in_or_app. auto.
@@ -982,13 +990,15 @@ Proof.
       [rewrite fallback_log_metric0 by assumption|]; reflexivity.
 Qed.
 
-Theorem callback_log_seq : forall o timer pop,
+Theorem callback_log_seq : forall o d timer pop,
   NoDup (map uid (to_evaluate pop)) ->
-  callback_graphs (snd (sequential_evaluate o timer pop)) = map gr (not_cut timer (to_evaluate pop)) /\
+  callback_graphs (snd (sequential_evaluate o d timer pop))
+    = map (eff_graph_seq d pop) (not_cut timer (to_evaluate pop)) /\
   (metrics o <> [] ->
-   metric0_graphs (snd (sequential_evaluate o timer pop)) = map gr (not_cut timer (to_evaluate pop))).
+   metric0_graphs (snd (sequential_evaluate o d timer pop))
+     = map (eff_graph_seq d pop) (not_cut timer (to_evaluate pop))).
 Proof.
-  intros o timer pop ND. rewrite (sequential_evaluate_closed o timer pop ND). simpl. split.
+  intros o d timer pop ND. rewrite (sequential_evaluate_closed o d timer pop ND). simpl. split.
   - apply main_log_callbacks.
   - intros. apply main_log_metric0. assumption.
 Qed.
@@ -1008,12 +1018,12 @@ Proof.
     unfold metric0_graphs. apply Permutation_flat_map. apply Permutation_sym. exact P.
 Qed.
 
-Theorem callback_once_seq : forall o timer pop lg',
+Theorem callback_once_seq : forall o d timer pop lg',
   NoDup (map uid (to_evaluate pop)) ->
-  Permutation lg' (snd (sequential_evaluate o timer pop)) ->
-  Permutation (callback_graphs lg') (map gr (not_cut timer (to_evaluate pop))).
+  Permutation lg' (snd (sequential_evaluate o d timer pop)) ->
+  Permutation (callback_graphs lg') (map (eff_graph_seq d pop) (not_cut timer (to_evaluate pop))).
 Proof.
-  intros o timer pop lg' ND P. destruct (callback_log_seq o timer pop ND) as [H1 _].
+  intros o d timer pop lg' ND P. destruct (callback_log_seq o d timer pop ND) as [H1 _].
   rewrite <- H1. unfold callback_graphs. apply Permutation_flat_map. exact P.
 Qed.
 
@@ -1067,22 +1077,41 @@ Proof.
   - destruct gs; simpl in *; try discriminate. right. eauto.
 Qed.
 
+Lemma delegate_used_on : forall f inds k i g,
+  NoDup (map uid inds) ->
+  nth_error inds k = Some i ->
+  nth_error (f (map gr inds)) k = Some g ->
+  cached_graph (remote_compute_cache (Some f) inds) (Some (uid i)) (gr i) = g.
+Proof.
+  intros f inds k i g ND Hi Hg. unfold cached_graph, remote_compute_cache.
+  rewrite dict_get_of_pairs.
+  assert (NDc : NoDup (map fst (combine (map uid inds) (f (map gr inds))))).
+  { apply combine_keys_NoDup. exact ND. }
+  rewrite (dict_get_perm _ _ _ (combine (map uid inds) (f (map gr inds)))).
+  - rewrite (dict_get_NoDup_In _ (uid i) g); auto.
+    eapply combine_nth_error; eauto. rewrite nth_error_map, Hi. reflexivity.
+  - eapply Permutation_NoDup; [apply Permutation_map; apply Permutation_rev|exact NDc].
+  - apply Permutation_sym, Permutation_rev.
+Qed.
+
+(* parallel: the delegate is asked about the reversed population *)
 Theorem delegate_used : forall f pop k i g,
   NoDup (map uid pop) ->
   nth_error (rev pop) k = Some i ->                    (* i is the k-th individual handed to the delegate *)
   nth_error (f (map gr (rev pop))) k = Some g ->       (* g is the k-th graph the delegate returned *)
   eff_graph (Some f) pop i = g.
 Proof.
-  intros f pop k i g ND Hi Hg. unfold eff_graph, cached_graph, remote_compute_cache.
-  rewrite dict_get_of_pairs.
-  assert (NDc : NoDup (map fst (combine (map uid (rev pop)) (f (map gr (rev pop)))))).
-  { apply combine_keys_NoDup. rewrite map_rev. eapply Permutation_NoDup; [apply Permutation_rev|exact ND]. }
-  rewrite (dict_get_perm _ _ _ (combine (map uid (rev pop)) (f (map gr (rev pop))))).
-  - rewrite (dict_get_NoDup_In _ (uid i) g); auto.
-    eapply combine_nth_error; eauto. rewrite nth_error_map, Hi. reflexivity.
-  - eapply Permutation_NoDup; [apply Permutation_map; apply Permutation_rev|exact NDc].
-  - apply Permutation_sym, Permutation_rev.
+  intros f pop k i g ND Hi Hg. unfold eff_graph. apply (delegate_used_on f (rev pop) k i g); auto.
+  rewrite map_rev. eapply Permutation_NoDup; [apply Permutation_rev|exact ND].
 Qed.
+
+(* sequential: the delegate is asked about the population in input order *)
+Theorem delegate_used_seq : forall f pop k i g,
+  NoDup (map uid pop) ->
+  nth_error pop k = Some i ->
+  nth_error (f (map gr pop)) k = Some g ->
+  eff_graph_seq (Some f) pop i = g.
+Proof. intros f pop k i g ND Hi Hg. unfold eff_graph_seq. apply (delegate_used_on f pop k i g); auto. Qed.
 
 Theorem delegate_absent : forall pop i, eff_graph None pop i = gr i.
 Proof. reflexivity. Qed.
@@ -1099,8 +1128,8 @@ Proof.
   rewrite E. reflexivity.
 Qed.
 
-(* the sequential dispatcher never consults a delegate: its model has no delegate argument at
-   all, and eval_sound_seq says every individual is evaluated on its own graph *)
+Theorem delegate_absent_seq : forall pop i, eff_graph_seq None pop i = gr i.
+Proof. reflexivity. Qed.
 
 (* --- sequential = parallel ---------------------------------------------------------------------- *)
 Lemma cgc_nil : forall i, cgc [] i = gr i.
@@ -1116,15 +1145,16 @@ Qed.
    the sequential dispatcher returns on the reversed population (same individuals, same order) *)
 Theorem par_is_seq_on_reversed : forall o timer pop,
   NoDup (map uid (to_evaluate pop)) -> ~ main_pass_empty o None timer pop ->
-  fst (evaluate_with_cache o None timer pop) = fst (sequential_evaluate o timer (rev pop)).
+  fst (evaluate_with_cache o None timer pop) = fst (sequential_evaluate o None timer (rev pop)).
 Proof.
   intros o timer pop ND Hne.
   rewrite (evaluate_with_cache_closed o None timer pop ND).
-  rewrite (sequential_evaluate_closed o timer (rev pop) (NoDup_to_evaluate_rev pop ND)). simpl.
+  rewrite (sequential_evaluate_closed o None timer (rev pop) (NoDup_to_evaluate_rev pop ND)). cbn [fst].
   unfold mp_spec, seq_spec. unfold main_pass_empty in Hne.
-  rewrite (survivors_ext o (cgc []) gr timer _ cgc_nil).
-  rewrite (survivors_ext o (eff_graph None pop) gr timer _ (delegate_absent pop)) in Hne.
-  destruct (survivors o gr timer (to_evaluate (rev pop)) ++ to_skip (rev pop));
+  change (eff_graph_seq None (rev pop)) with (cgc []).
+  change (eff_graph None pop) with (cgc []) in Hne.
+  change (remote_compute_cache None (rev pop)) with (@nil (nat * graph)).
+  destruct (survivors o (cgc []) timer (to_evaluate (rev pop)) ++ to_skip (rev pop));
     [exfalso; apply Hne; reflexivity|reflexivity].
 Qed.
 
@@ -1147,14 +1177,17 @@ Theorem seq_par_same : forall o pop,
   NoDup (map uid (to_evaluate pop)) ->
   exists out_p out_s,
     fst (evaluate_with_cache o None (fun _ => false) pop) = Ok out_p /\
-    fst (sequential_evaluate o (fun _ => false) pop) = Ok out_s /\
+    fst (sequential_evaluate o None (fun _ => false) pop) = Ok out_s /\
     Permutation out_p out_s.
 Proof.
   intros o pop ND.
   rewrite (evaluate_with_cache_closed o None _ pop ND).
-  rewrite (sequential_evaluate_closed o _ pop ND). simpl.
+  rewrite (sequential_evaluate_closed o None _ pop ND). cbn [fst].
   eexists. eexists. split; [reflexivity|]. split; [reflexivity|].
-  unfold mp_spec, seq_spec. rewrite (survivors_ext o (cgc []) gr _ _ cgc_nil).
+  unfold mp_spec, seq_spec.
+  change (eff_graph_seq None pop) with (cgc []).
+  change (remote_compute_cache None (rev pop)) with (@nil (nat * graph)).
+  rewrite !(survivors_ext o (cgc []) gr _ _ cgc_nil).
   rewrite !survivors_never.
   set (G := fun i => if valid (objective_value o (gr i)) then [evaluated_ind o (gr i) i] else []).
   assert (PP : Permutation (flat_map G (to_evaluate (rev pop)) ++ to_skip (rev pop))
@@ -1191,9 +1224,9 @@ Definition w_dup_pop : list ind :=
 (* two not-yet-evaluated individuals with one uid: the order of the results decides which
    fitness both of them get, and one of them receives the value of the other's graph *)
 Theorem duplicate_uids_order_matters :
-  fst (sequential_evaluate_shuffled (@rev _) w_objective (fun _ => false) w_dup_pop)
-  <> fst (sequential_evaluate w_objective (fun _ => false) w_dup_pop) /\
-  fst (sequential_evaluate w_objective (fun _ => false) w_dup_pop)
+  fst (sequential_evaluate_shuffled (@rev _) w_objective None (fun _ => false) w_dup_pop)
+  <> fst (sequential_evaluate w_objective None (fun _ => false) w_dup_pop) /\
+  fst (sequential_evaluate w_objective None (fun _ => false) w_dup_pop)
   = Ok [ {| uid := 0; fitness := FSingle [inject_Z 1]; gr := 1 |};
          {| uid := 0; fitness := FSingle [inject_Z 1]; gr := 1 |} ].
 Proof. split; [vm_compute; discriminate|vm_compute; reflexivity]. Qed.
@@ -1416,7 +1449,7 @@ Definition model_observed (c : case) : observed :=
 
 (* the graph an individual is evaluated on according to the model of the chosen dispatcher *)
 Definition case_eff (c : case) (i : ind) : graph :=
-  if c_par c then eff_graph (case_delegate c) (c_pop c) i else gr i.
+  if c_par c then eff_graph (case_delegate c) (c_pop c) i else eff_graph_seq (case_delegate c) (c_pop c) i.
 
 (* looking the delegate's answer up by graph label finds the graph computed for the individual
    (true without delegate; with a delegate it needs labels that identify the individuals) *)
@@ -1428,7 +1461,7 @@ Lemma model_run_id_par : forall c, c_par c = true ->
 Proof. intros c H. unfold model_run. rewrite H. reflexivity. Qed.
 
 Lemma model_run_id_seq : forall c, c_par c = false ->
-  model_run (fun l => l) c = sequential_evaluate (case_objective c) (case_timer c) (c_pop c).
+  model_run (fun l => l) c = sequential_evaluate (case_objective c) (case_delegate c) (case_timer c) (c_pop c).
 Proof. intros c H. unfold model_run. rewrite H. reflexivity. Qed.
 
 Lemma case_metrics_nonempty : forall c, c_nmetrics c <> 0 -> metrics (case_objective c) <> [].
@@ -1467,11 +1500,11 @@ Proof.
     + intros Hne. destruct (callback_log_par (case_objective c) (case_delegate c) (case_timer c) (c_pop c) ND) as [C1 C2].
       rewrite E in C1, C2. simpl in C1, C2. rewrite C1, (C2 Hne). reflexivity.
   - rewrite (model_run_id_seq c Ep).
-    destruct (eval_sound_seq (case_objective c) (case_timer c) (c_pop c) ND) as [out [lg [E [H1 H2]]]].
+    destruct (eval_sound_seq (case_objective c) (case_delegate c) (case_timer c) (c_pop c) ND) as [out [lg [E [H1 H2]]]].
     exists out, lg. split; [exact E|]. split; [exact H1|]. split; [exact H2|]. split.
-    + intros i Hi. rewrite (sequential_evaluate_closed _ _ _ ND) in E. inversion E; subst out lg.
+    + intros i Hi. rewrite (sequential_evaluate_closed _ _ _ _ ND) in E. inversion E; subst out lg.
       unfold seq_spec. apply in_or_app. right. exact Hi.
-    + intros Hne. destruct (callback_log_seq (case_objective c) (case_timer c) (c_pop c) ND) as [C1 C2].
+    + intros Hne. destruct (callback_log_seq (case_objective c) (case_delegate c) (case_timer c) (c_pop c) ND) as [C1 C2].
       rewrite E in C1, C2. simpl in C1, C2. rewrite C1, (C2 Hne). reflexivity.
 Qed.
 
@@ -1593,7 +1626,7 @@ Proof.
     destruct (callback_log_par (case_objective c) (case_delegate c) (case_timer c) (c_pop c) ND) as [_ C2].
     rewrite E in C2. simpl in C2. rewrite (C2 Hne). unfold reached_par. eexists. reflexivity.
   - rewrite (model_run_id_seq c Ep) in E.
-    destruct (callback_log_seq (case_objective c) (case_timer c) (c_pop c) ND) as [_ C2].
+    destruct (callback_log_seq (case_objective c) (case_delegate c) (case_timer c) (c_pop c) ND) as [_ C2].
     rewrite E in C2. simpl in C2. rewrite (C2 Hne). exists []. rewrite app_nil_r. reflexivity.
 Qed.
 
@@ -1668,7 +1701,7 @@ Proof.
     + (* something pre-evaluated: it is what comes back *)
       assert (Hl2 : length (rev (p :: ps)) = S (length ps)) by (rewrite rev_length; reflexivity).
       destruct (rev (p :: ps)) as [|y s] eqn:Er; [simpl in Hl2; discriminate|]. reflexivity.
-  - rewrite (model_run_id_seq c Ep). rewrite (sequential_evaluate_closed _ _ _ ND). cbn [o_out].
+  - rewrite (model_run_id_seq c Ep). rewrite (sequential_evaluate_closed _ _ _ _ ND). cbn [o_out].
     unfold seq_spec. rewrite (survivors_expired _ _ _ _ Halways). simpl.
     apply forallb_forall. intros x Hx. apply negb_true_iff. unfold is_new.
     destruct (existsb _ (unevaluated c)) eqn:Ex; auto. apply existsb_exists in Ex.
@@ -1821,14 +1854,28 @@ Proof.
       apply (proj1 (in_rev_iff _ _ _)) in Hx. exact Hx.
   - (* sequential *)
     rewrite (model_run_id_seq c Ep) in E.
-    destruct (callback_log_seq (case_objective c) (case_timer c) (c_pop c) ND) as [_ C2].
+    destruct (callback_log_seq (case_objective c) (case_delegate c) (case_timer c) (c_pop c) ND) as [_ C2].
     rewrite E in C2. simpl in C2. rewrite (C2 Hne). clear C2.
-    rewrite (sequential_evaluate_closed _ _ _ ND) in E. inversion E as [[Eo El]]. clear E El.
+    rewrite (sequential_evaluate_closed _ _ _ _ ND) in E. inversion E as [[Eo El]]. clear E El.
     unfold seq_spec. apply (exactly_main (case_objective c)); auto.
     intros k j Hin. apply uid_in_survivors; auto.
     intros x Hx Hu. assert (Hj : In j (to_evaluate (c_pop c))).
     { apply index_from_In_snd in Hin. exact Hin. }
     apply (Hdis j Hj). rewrite <- Hu. apply in_map. exact Hx.
+Qed.
+
+Lemma model_observed_deleg : forall c, o_deleg (model_observed c) = model_deleg c.
+Proof. intros c. unfold model_observed. destruct (model_run (fun l => l) c) as [[out|] lg]; reflexivity. Qed.
+
+(* the model hands every individual of the population to an enabled delegate *)
+Theorem oracle_delegate_on_model : forall c, clause_delegate c (model_observed c) = true.
+Proof.
+  intros c. unfold clause_delegate. destruct (c_delegate c) as [s|] eqn:Ed; [|reflexivity].
+  apply forallb_forall. intros i Hi. apply orb_true_iff. right.
+  rewrite model_observed_deleg. unfold model_deleg. rewrite Ed. simpl. rewrite orb_false_r.
+  apply existsb_eqb_In. apply in_map.
+  unfold unevaluated in Hi. apply to_evaluate_In in Hi. destruct Hi as [Hi _].
+  destruct (c_par c); [apply in_rev_iff|]; exact Hi.
 Qed.
 
 (* all clauses together: the executable property accepts every behaviour of the model *)
@@ -1839,7 +1886,7 @@ Proof.
   destruct (oracle_accepts_model_partial c Hs Hn Hl) as [H0 [H1 [H2 [H3 [H4 H5]]]]].
   rewrite H0, H1, H2, H3, H4, H5.
   rewrite (oracle_exactly_on_model c Hs Hn Hl), (oracle_generous_on_model c Hs Hn Hl),
-          (oracle_expired_on_model c Hs Hn Hl). reflexivity.
+          (oracle_expired_on_model c Hs Hn Hl), (oracle_delegate_on_model c). reflexivity.
 Qed.
 
 (* when does the lookup by graph label find the delegate's graph for the individual? *)
@@ -1859,27 +1906,33 @@ Proof.
     rewrite E1, E2. apply IH; auto.
 Qed.
 
+Lemma lookup_on : forall s inds i,
+  NoDup (map gr inds) -> NoDup (map uid inds) -> In i inds ->
+  computed_for [(map gr inds, delegate_of_spec s (map gr inds))] (gr i)
+  = cached_graph (remote_compute_cache (Some (delegate_of_spec s)) inds) (Some (uid i)) (gr i).
+Proof.
+  intros s inds i NDg NDu Hi. simpl. unfold cached_graph, remote_compute_cache.
+  rewrite assoc_is_dict_get, dict_get_of_pairs.
+  set (outg := delegate_of_spec s (map gr inds)).
+  rewrite (dict_get_perm _ (uid i) (rev (combine (map uid inds) outg)) (combine (map uid inds) outg)).
+  - rewrite (lookup_label_vs_uid _ outg i NDg NDu Hi). reflexivity.
+  - eapply Permutation_NoDup; [apply Permutation_map; apply Permutation_rev|].
+    apply combine_keys_NoDup. exact NDu.
+  - apply Permutation_sym, Permutation_rev.
+Qed.
+
 Theorem labels_ok_sufficient : forall c,
-  c_par c = false \/ c_delegate c = None \/ (NoDup (map gr (c_pop c)) /\ NoDup (map uid (c_pop c))) ->
+  c_delegate c = None \/ (NoDup (map gr (c_pop c)) /\ NoDup (map uid (c_pop c))) ->
   labels_ok c.
 Proof.
   intros c H i Hi. unfold case_eff, model_deleg, case_delegate.
-  destruct (c_par c) eqn:Ep; [|reflexivity].
-  destruct (c_delegate c) as [s|] eqn:Ed; [|reflexivity].
-  destruct H as [H|[H|[NDg NDu]]]; try discriminate.
-  simpl. unfold eff_graph, cached_graph, remote_compute_cache.
-  rewrite assoc_is_dict_get, dict_get_of_pairs.
-  set (outg := delegate_of_spec s (map gr (rev (c_pop c)))).
-  assert (NDg' : NoDup (map gr (rev (c_pop c)))).
-  { rewrite map_rev. eapply Permutation_NoDup; [apply Permutation_rev|exact NDg]. }
-  assert (NDu' : NoDup (map uid (rev (c_pop c)))).
-  { rewrite map_rev. eapply Permutation_NoDup; [apply Permutation_rev|exact NDu]. }
-  assert (Hi' : In i (rev (c_pop c))).
-  { apply in_rev_iff. apply to_evaluate_In in Hi. tauto. }
-  rewrite (dict_get_perm _ (uid i) (rev (combine (map uid (rev (c_pop c))) outg))
-                         (combine (map uid (rev (c_pop c))) outg)).
-  - rewrite (lookup_label_vs_uid _ outg i NDg' NDu' Hi'). reflexivity.
-  - eapply Permutation_NoDup; [apply Permutation_map; apply Permutation_rev|].
-    apply combine_keys_NoDup. exact NDu'.
-  - apply Permutation_sym, Permutation_rev.
+  destruct (c_delegate c) as [s|] eqn:Ed; [|destruct (c_par c); reflexivity].
+  destruct H as [H|[NDg NDu]]; try discriminate.
+  assert (Hp : In i (c_pop c)) by (apply to_evaluate_In in Hi; tauto).
+  destruct (c_par c) eqn:Ep; cbn [option_map].
+  - unfold eff_graph. apply lookup_on.
+    + rewrite map_rev. eapply Permutation_NoDup; [apply Permutation_rev|exact NDg].
+    + rewrite map_rev. eapply Permutation_NoDup; [apply Permutation_rev|exact NDu].
+    + apply in_rev_iff. exact Hp.
+  - unfold eff_graph_seq. apply lookup_on; auto.
 Qed.
